@@ -1,0 +1,25 @@
+#ifndef VERIF_HOOKS_HEADER
+#define VERIF_HOOKS_HEADER
+
+/* Verification hooks, compiled in only with -DCGREEN_VERIF. Without it this header
+   defines an empty macro and nothing else. */
+
+#ifdef CGREEN_VERIF
+#ifdef __cplusplus
+extern "C" {
+#endif
+/* A named point on the path of a process running test code. When the environment
+   variable CGREEN_VERIF_KILL is "<point>:<occurrence>:<how>[:<test name>]" the
+   <occurrence>'th time (counted from 1, per process) <point> is passed - while the
+   reporter's current breadcrumb is <test name>, if given - the process ends there:
+   <how> is a signal number, "exit" (exit(0)) or "_exit" (_exit(0)). */
+void cgreen_verif_killpoint(const char *point);
+#ifdef __cplusplus
+}
+#endif
+#define CGREEN_VERIF_KILLPOINT(point) cgreen_verif_killpoint(point)
+#else
+#define CGREEN_VERIF_KILLPOINT(point) ((void)0)
+#endif
+
+#endif
